@@ -393,22 +393,20 @@ class _StatementCompiler(StatementVisitor, _Compiler):
         self._emit_switch(gen_test, stmt.cases, case_handler)
 
     def emit_format(self, format):
-        format_string = []
-        args = []
+        # Each value is formatted on its own with `format(value, spec)`; the specifier cannot be
+        # spliced into a `str.format()` template, since its fill character may be a brace.
+        gen_chunks = []
         for chunk in format._chunks:
             if isinstance(chunk, str):
-                format_string.append(chunk.replace("{", "{{").replace("}", "}}"))
+                gen_chunks.append(f"{chunk!r}")
             else:
                 value, format_desc = chunk
                 value = self.rhs.sign(value)
                 if format_desc.endswith("s"):
                     format_desc = format_desc[:-1]
                     value = f"value_to_string({value})"
-                format_string.append(f"{{:{format_desc}}}")
-                args.append(value)
-        format_string = "".join(format_string)
-        args = ", ".join(args)
-        return f"{format_string!r}.format({args})"
+                gen_chunks.append(f"format({value}, {format_desc!r})")
+        return f"''.join([{', '.join(gen_chunks)}])"
 
     def on_Print(self, stmt):
         self.emitter.append(f"print({self.emit_format(stmt.message)}, end='')")
